@@ -78,6 +78,53 @@ def sync_struct_update_notifies(shape, pos: int, old_block: bytes, offset: int, 
     cover("reached-end", True)
 
 
+# ------------------------------------------- full / range refresh through the protocol path (both structure classes)
+class FinalSegment:
+    """the completing STATV of a refresh as the structure sees it"""
+
+    def __init__(self, sequence, data):
+        self.sequence = sequence
+        self.next = 0
+        self.data = data
+        self._should_remove_handler = False
+
+    def retry(self, socket):
+        return True
+
+
+@harness(prop="C03", target="geckolib.driver.spastruct:GeckoStructure._on_status_block_received",
+         name="refresh_completed_through_the_protocol_path_notifies")
+def refresh_completed_through_the_protocol_path_notifies(pos: int, old_block: bytes, start: int, earlier: bytes, last: bytes, first_ever: bool):
+    """'after any update (full refresh, ...)': the blocking client's refresh arrives segment by segment; when the last
+    segment completes it the watched item whose value changed is told exactly once -- on the very first refresh of a
+    structure as well as on later ones"""
+    from geckolib.driver.accessor import GeckoByteStructAccessor
+    requires(len(old_block) == 1024)
+    requires(both(0 <= pos, pos <= 1023, 0 <= start, start + len(earlier) + len(last) <= 1024))
+    requires(len(earlier) % 39 == 0)
+    k = len(earlier) // 39
+    requires(k <= 26)
+    s = GeckoStructure(None)
+    s.set_status_block(old_block)
+    s.had_at_least_one_block = not first_ever
+    a = GeckoByteStructAccessor(s, "item", pos, "ALL")
+    s.accessors = {"item": a}
+    rec = Recorder(s)
+    a.watch(rec)
+    # reassembly state after k in-sequence segments (the representation invariant of C01)
+    s._socket = None
+    s._status_block_offset = start
+    s._next_expected = k
+    s._status_block_segments = [earlier] if k > 0 else []
+    h = FinalSegment(k, last)
+    s._on_status_block_received(h, ("10.0.0.9", 10022))
+    new_block = splice(old_block, start, earlier + last)
+    ensures("block-is-the-spliced-block", s.status_block == new_block)
+    notify_post(a, rec, old_block, new_block)
+    ensures("refresh-marked-complete", both(s.had_at_least_one_block, h._should_remove_handler))
+    cover("very-first-refresh-changes-the-item", both(first_ever, byte_at(old_block, pos) != byte_at(new_block, pos)))
+
+
 # ------------------------------------------------------------------------- Observable
 def make_observers(kind, n):
     out = []
